@@ -69,7 +69,8 @@ func (c *FrameCodec) Decode(src *sonic.ByteBuffer) (Frame, error) {
 	c.decodeFrame = src.Data()[:readSoFar]
 
 	payloadLength := c.decodeFrame.PayloadLength()
-	if payloadLength > c.maxMessageSize {
+	if payloadLength < 0 || payloadLength > c.maxMessageSize {
+		// A 64-bit length with the top bit set comes out negative.
 		c.decodeFrame = nil
 		return nil, ErrPayloadOverMaxSize
 	}
